@@ -360,6 +360,24 @@ pub fn generate(seed: u64) -> SockScenario {
         });
     }
 
+    // A downlink that never reads what is sent to it and goes away late: whoever writes to it is blocked on its full
+    // channel when it detaches, and must carry on with the other subscribers afterwards.
+    {
+        let mut dr = root.sub("deaf-downlink");
+        if faults && dr.chance(1, 4) {
+            if let Some(d) = downlinks.iter_mut().find(|d| !d.oneway) {
+                d.read = ReadCfg { max_chunk: 1, stall_pm: 1000, stall_max: 100_000 };
+                d.in_cap = *dr.pick(&[4u32, 8, 16]);
+                d.ops.retain(|o| !matches!(o, DlOp::Detach));
+                if !d.ops.iter().any(|o| matches!(o, DlOp::Send { kind: Kind::Link | Kind::Sync, .. })) {
+                    d.ops.insert(0, DlOp::Send { kind: Kind::Link, body: String::new() });
+                }
+                d.ops.push(DlOp::Pause(*dr.pick(&[40u32, 150, 400])));
+                d.ops.push(DlOp::Detach);
+            }
+        }
+    }
+
     // Agents.
     let mut agents = vec![];
     for (id, node) in nodes.iter().enumerate() {
